@@ -43,6 +43,10 @@ def make_model(kind, dim):
         ps = [elfi.Prior('uniform', -1, 3, model=m, name='t%d' % i) for i in range(dim)]
     elif kind == 'normal':
         ps = [elfi.Prior('norm', 0.5, 1.5, model=m, name='t%d' % i) for i in range(dim)]
+    elif kind == 'hier-scale':
+        # the parent is the SCALE of the child: outside the parent's support the child's log density is nan, not -inf
+        t0 = elfi.Prior('uniform', 0.2, 1.0, model=m, name='t0')
+        ps = [t0, elfi.Prior('norm', 0.5, t0, model=m, name='t1')]
     else:
         t0 = elfi.Prior('uniform', 0, 2, model=m, name='t0')
         ps = [t0, elfi.Prior('norm', t0, 1, model=m, name='t1')][:max(dim, 2)]
@@ -62,6 +66,9 @@ def prior_logpdf(kind, theta):
         return np.sum(ss.uniform.logpdf(theta, -1, 3), axis=1)
     if kind == 'normal':
         return np.sum(ss.norm.logpdf(theta, 0.5, 1.5), axis=1)
+    if kind == 'hier-scale':
+        with np.errstate(all='ignore'):
+            return ss.uniform.logpdf(theta[:, 0], 0.2, 1.0) + ss.norm.logpdf(theta[:, 1], 0.5, theta[:, 0])
     return ss.uniform.logpdf(theta[:, 0], 0, 2) + ss.norm.logpdf(theta[:, 1], theta[:, 0], 1)
 
 
@@ -76,8 +83,8 @@ def gm_logpdf(theta, means, cov, w):
 
 
 def gen_case(rng):
-    kind = rng.choice(['uniform', 'normal', 'hier'])
-    dim = 2 if kind == 'hier' else rng.randint(1, 2)
+    kind = rng.choice(['uniform', 'normal', 'hier', 'hier-scale'])
+    dim = 2 if kind.startswith('hier') else rng.randint(1, 2)
     calls = []
     for _ in range(rng.choice([1, 1, 2])):
         if rng.random() < .5:
@@ -222,6 +229,8 @@ def process(ctx, n):
         case = gen_case(ctx.rng)
         if i < len(forced):                      # every run covers continued sampling after a multi-round call
             case['calls'] = [dict(c) for c in forced[i]]
+            if i in (1, 2):
+                case.update(prior='hier-scale', dim=2)
         elif i < len(forced) + 3:                # unit weights, population size a power of two, dyadic quantile: the cumulative
             case['n'] = [8, 16, 32][i - len(forced)]      # weight ties EXACTLY with alpha
             case['calls'] = [dict(quantiles=[0.5, [0.5, 0.25, 0.75][i - len(forced)]])]
